@@ -358,6 +358,26 @@ void explore17(Options const& o, std::vector<Shim*> const& shims, std::vector<Sh
       if( past_deadline() ) { rec.cap("deadline reached after BFS level " + std::to_string(lvl) + " in " + s->name); break; }
       }
     rec.count("bfs.distinct_states." + s->name, visited.size());
+    // two-step histories executed INSIDE one function (x op1= b; x op2= c;) must equal the same history executed call by call
+    {
+    int c_seq = rec.cls("C17.in_function_history_differs_from_stepwise");
+    std::vector<i64> xs = S_set(1,0);
+    std::vector<i64> ys { 0, 1, -1, 65536, -65536, 3 * 65536, -98304, 205887, 1ll << 40, -(1ll << 46), 1ll << 62, FX_MAX, FX_LOWEST };
+    const int EQ[4] = { B_ADDEQ, B_SUBEQ, B_MULEQ, B_DIVEQ };
+    std::mutex m; u64 tot = 0;
+    parallel_blocks(xs.size(), o.threads, [&](size_t ia, int) {
+      LocalViol lv(rec); u64 n = 0; i64 a = xs[ia];
+      for( int o1 = 0; o1 < 4; ++o1 ) for( int o2 = 0; o2 < 4; ++o2 ) for( i64 b : ys ) for( i64 cc : ys )
+        {
+        i64 got = 0, step = 0;
+        int sg = guarded([&]{ got = s->fm_seq_compound(o1, o2, a, b, cc); step = s->fm_bin(EQ[o2], s->fm_bin(EQ[o1], a, b), cc); });
+        ++n;
+        if( sg || got != step ) lv.hit(c_seq, ob | (14ull << 52) | (ia << 20) | static_cast<u64>((o1 * 4 + o2) * 256 + n % 256), [=]{ return ex1(s, "x op1= b; x op2= c; in one function", std::string("op1=") + "+-*/"[o1] + " op2=" + "+-*/"[o2], {{"x",to_s(a)},{"b",to_s(b)},{"c",to_s(cc)}}, to_s(step) + " (step by step)", sg ? "signal " + std::to_string(sg) : to_s(got), "seq", {to_s(o1), to_s(o2), to_s(a), to_s(b), to_s(cc)}); });
+        }
+      std::lock_guard<std::mutex> g(m); tot += n;
+      });
+    rec.add_states(tot, 3 * tot, tot); rec.count("in_function_two_step_histories", tot);
+    }
     // cube for the three-operand laws
     std::mutex m; u64 tl = 0;
     parallel_blocks(cube.size(), o.threads, [&](size_t ia, int) {
@@ -378,7 +398,14 @@ void replay17(Options const& o, Shim* s, Recorder& rec)
   C17 c(rec); DirectViol d{rec};
   c.B = S_set(1,0);
   c.N = typed_n();
-  if( o.rcase == "law" ) c.laws(s, parse_i64(o.rin.at(0)), 0, d, true, true);
+  if( o.rcase == "seq" )
+    {
+    const int EQ[4] = { B_ADDEQ, B_SUBEQ, B_MULEQ, B_DIVEQ };
+    int o1 = static_cast<int>(parse_i64(o.rin.at(0))), o2 = static_cast<int>(parse_i64(o.rin.at(1))); i64 a = parse_i64(o.rin.at(2)), b = parse_i64(o.rin.at(3)), cc = parse_i64(o.rin.at(4));
+    i64 got = 0, step = 0; int sg = guarded([&]{ got = s->fm_seq_compound(o1, o2, a, b, cc); step = s->fm_bin(EQ[o2], s->fm_bin(EQ[o1], a, b), cc); });
+    if( sg || got != step ) rec.viol(rec.cls("C17.in_function_history_differs_from_stepwise"), 0, [&]{ return ex1(s, "x op1= b; x op2= c;", "", {{"x",to_s(a)},{"b",to_s(b)},{"c",to_s(cc)}}, to_s(step), to_s(got), o.rcase, o.rin); });
+    }
+  else if( o.rcase == "law" ) c.laws(s, parse_i64(o.rin.at(0)), 0, d, true, true);
   else if( o.rcase == "triple" ) c.triple(s, parse_i64(o.rin.at(0)), parse_i64(o.rin.at(1)), parse_i64(o.rin.at(2)), 0, d);
   else
     {
